@@ -69,4 +69,78 @@ func (q *ProvideQueue) DrainDatastore(ctx context.Context, d ds.Batching) error
   loop 0 invariant [every-restorable-entry-is-decoded] !$pending
   ghost at call(Split): $pending = (len($ret0) == 1 || len($ret0) == 2)
   ghost at before call(decodeMultihashes): $pending = false
+
+# Dequeue: the prefix handed out is the one popped from the prefix queue; the
+# keys returned are all values of the subtrie found under THAT prefix in the
+# key trie, and exactly that subtree is pruned (under the lock).
+func (q *ProvideQueue) Dequeue() (bitstr.Key, []mh.Multihash, bool)
+  props C19
+  ghostvar $p bitstr.Key = any
+  ghostvar $popped bool = false
+  ghostvar $vals []mh.Multihash = any
+  ghostvar $pruned bool = false
+  modifies *
+  ensures [nothing-without-a-prefix] imp(!$popped, !result2 && len(result1) == 0 && !$pruned)
+  ensures [the-popped-prefix-and-its-keys] imp($popped, result2 && result0 == $p && result1 == $vals && $pruned)
+  ghost at call(Pop): assert(held(q.mu)); $p = $ret0; $popped = $ret1
+  ghost at before call(FindSubtrie): assert($popped && $arg0 == q.keys && $arg1 == $p)
+  ghost at before call(AllValues): assert($arg0 == subtrie)
+  ghost at call(AllValues): $vals = $ret0
+  ghost at before call(PruneSubtrie): assert(held(q.mu) && $arg0 == q.keys && $arg1 == $p); $pruned = true
+
+# DequeueMatching: keys are all values under the requested prefix, exactly
+# that subtree is pruned, and the prefix queue is told to drop the prefix; a
+# shorter queued prefix is dropped only when no key is left under it.
+func (q *ProvideQueue) DequeueMatching(prefix bitstr.Key) []mh.Multihash
+  props C19
+  ghostvar $found bool = false
+  ghostvar $vals []mh.Multihash = any
+  ghostvar $pruned bool = false
+  ghostvar $removed int = 0
+  ghostvar $short bitstr.Key = any
+  ghostvar $shortOk bool = false
+  ghostvar $left bool = true
+  modifies *
+  ensures [all-values-under-the-prefix] imp($found, result == $vals && $pruned && $removed >= 1)
+  ensures [nothing-when-no-key-matches] imp(!$found, len(result) == 0 && !$pruned && $removed == 0)
+  ghost at call(FindSubtrie)#0: assert(held(q.mu)); $found = $ret1
+  ghost at before call(FindSubtrie)#0: assert($arg0 == q.keys && $arg1 == prefix)
+  ghost at before call(AllValues): assert($arg0 == subtrie && $found)
+  ghost at call(AllValues): $vals = $ret0
+  ghost at before call(PruneSubtrie): assert(held(q.mu) && $arg0 == q.keys && $arg1 == prefix); $pruned = true
+  ghost at before call(Remove)#0: assert($pruned && $arg0 == prefix); $removed = $removed + 1
+  ghost at before call(FindPrefixOfKey): assert($arg0 == q.queue.prefixes && $arg1 == prefix)
+  ghost at call(FindPrefixOfKey): $short = $ret0; $shortOk = $ret1
+  ghost at before call(FindSubtrie)#1: assert($shortOk && $arg0 == q.keys && $arg1 == $short)
+  ghost at call(FindSubtrie)#1: $left = $ret1
+  ghost at before call(Remove)#1: assert($shortOk && !$left && $arg0 == $short)
+
+# The reprovide queue is the prefix queue behind a lock.
+func (q *ReprovideQueue) Enqueue(prefixes ...bitstr.Key)
+  props C19
+  modifies *
+  ghost at before call(Push): assert(held(q.mu) && $arg0 == prefixes)
+
+func (q *ReprovideQueue) Dequeue() (bitstr.Key, bool)
+  props C19
+  ghostvar $p bitstr.Key = any
+  ghostvar $ok bool = false
+  modifies *
+  ensures [what-pop-returned] result0 == $p && result1 == $ok
+  ghost at call(Pop): assert(held(q.mu)); $p = $ret0; $ok = $ret1
+
+func (q *ReprovideQueue) Remove(prefix bitstr.Key) bool
+  props C19
+  ghostvar $r bool = false
+  modifies *
+  ensures [what-remove-returned] result == $r
+  ghost at before call(Remove): assert(held(q.mu) && $arg0 == prefix)
+  ghost at call(Remove): $r = $ret0
+
+func (q *ReprovideQueue) Clear() int
+  props C19
+  ghostvar $n int = 0
+  modifies *
+  ensures [what-clear-returned] result == $n
+  ghost at call(Clear): assert(held(q.mu)); $n = $ret0
 @*/
